@@ -183,17 +183,38 @@ def judge(prop, obs, ctx, shards=12):
                 f.write(json.dumps(rec) + "\n")
         files.append(fn)
 
-    def one(fn):
+    def one(fn, depth=0):
         r = lib.run_tlc(prop.JUDGE, workers=1, env=dict(env0, OBS=fn), tags=("VERDICT", "JUDGED"), timeout=3000,
                         xmx="4g")
-        if r.rc != 0 or not r.lines["JUDGED"]:
-            tail = "\n".join(l for l in r.out.splitlines() if not l.startswith('<<"VERDICT"'))[-3000:]
-            log(tail)
-            raise ToolError("judge %s failed (rc=%s)" % (prop.JUDGE, r.rc))
         n = sum(1 for _ in open(fn))
-        if r.lines["JUDGED"][-1]["n"] != n or len(r.lines["VERDICT"]) != n:
-            raise ToolError("judge consumed %s of %d records" % (r.lines["JUDGED"], n))
-        return r.lines["VERDICT"], r.distinct
+        if r.rc == 0 and r.lines["JUDGED"] and r.lines["JUDGED"][-1]["n"] == n and len(r.lines["VERDICT"]) == n:
+            return r.lines["VERDICT"], r.distinct
+        # The judge could not evaluate this file.  The judges are total on everything the unchanged program prints, so this
+        # is an observation of a shape they exclude (a row with the wrong number of cells, text where a number belongs ...):
+        # isolate the record(s) by bisection and report each as a violation of its own class - data, not a tool error.
+        recs = [json.loads(x) for x in open(fn)]
+        if len(recs) == 1:
+            r2 = lib.run_tlc(prop.JUDGE, workers=1, env=dict(env0, OBS=fn), tags=("VERDICT", "JUDGED"), timeout=3000, xmx="4g")
+            if r2.rc == 0 and len(r2.lines["VERDICT"]) == 1:
+                return r2.lines["VERDICT"], r2.distinct
+            tail = "\n".join(l for l in r2.out.splitlines() if not l.startswith('<<"VERDICT"') and "Parsing file" not in l)[-1500:]
+            log(tail)
+            rec = recs[0]
+            why = "observation-the-judge-cannot-evaluate"
+            return [{"id": rec.get("id", 0), "ok": False, "class": rec.get("class", "?"), "why": why,
+                     "key": "%s/%s/%s" % (prop.ID, rec.get("class", "?"), why), "nontrivial": False}], 0
+        if depth > 24:
+            raise ToolError("judge %s failed (rc=%s)" % (prop.JUDGE, r.rc))
+        out, st = [], 0
+        for k, part in enumerate((recs[:len(recs) // 2], recs[len(recs) // 2:])):
+            pf = "%s.%d" % (fn, k)
+            with open(pf, "w") as f:
+                for rec in part:
+                    f.write(json.dumps(rec) + "\n")
+            v, d = one(pf, depth + 1)
+            out += v
+            st += d
+        return out, st
     res = lib.pmap(one, files, workers=min(12, len(files)))
     verdicts = []
     states = 0
